@@ -9,6 +9,14 @@ def variants():
     for d in sorted(os.listdir(SEEDED)):
         p=os.path.join(SEEDED,d)
         if not os.path.isdir(p): continue
+        if d=='refactors':
+            # behaviour-preserving refactorings: every check must stay silent on them
+            for r in sorted(os.listdir(p)):
+                q=os.path.join(p,r)
+                if os.path.exists(os.path.join(q,'patch.diff')):
+                    meta=json.load(open(os.path.join(q,'meta.json')))
+                    out.append(('refactor-'+r, os.path.join(q,'patch.diff'), False, (meta.get('kind','')+': '+meta.get('summary',''))[:200]))
+            continue
         if d.startswith('revert-'):
             if os.path.exists(os.path.join(p,'reintroduce.diff')):
                 # the fix no longer reverts cleanly on HEAD (later fixes touched the same lines): forward patch that re-introduces the defect
@@ -43,5 +51,6 @@ with concurrent.futures.ThreadPoolExecutor(max_workers=4) as ex:
         res[name]=r
         print(name, 'applies' if r['applies'] else 'DOES NOT APPLY', r['detected_by'], flush=True)
 json.dump(res,open(os.path.join(SEEDED,'BANK.json'),'w'),indent=1,sort_keys=True)
-missed=[n for n,r in res.items() if r['applies'] and not r['detected_by']]
-print('variants',len(res),'missed',missed)
+missed=[n for n,r in res.items() if r['applies'] and not r['detected_by'] and not n.startswith('refactor-')]
+alarms=[n for n,r in res.items() if n.startswith('refactor-') and r['detected_by']]
+print('variants',len(res),'missed',missed,'false alarms on refactorings',alarms)
